@@ -897,3 +897,6 @@ def _isect_oracle(c, o):
         if distinct and res is not None:
             return "intersect_2d_lines returned %r for parallel distinct lines" % (res,)
     return None
+
+# added with seeded rounds 6-7 (DESIGN 8.6)
+RULE = RULE + '; every Line constructor case is also observed with assume_normalized=True and must behave as the default form'
